@@ -141,8 +141,8 @@ ReadWith(k, c, allocOk) ==
              /\ done' = [done EXCEPT ![r.cur] = "read"]
      ELSE /\ c = 0 /\ UNCHANGED <<r, live, b, done>>
   /\ UNCHANGED <<arc, policy, dirStack, deferred, refs, mis>>
-ReadResult(k) ==     \* bytes returned by the call (evaluated in the pre-state)
-  IF r.dec \/ Decodable
+ReadResult(k, allocOk) ==     \* bytes returned by the call (evaluated in the pre-state)
+  IF r.dec \/ (Decodable /\ allocOk)
   THEN LET m == arc[r.cur]
            n == IF k < Len(m.data) - r.dpos THEN k ELSE Len(m.data) - r.dpos
        IN SubSeq(m.data, r.dpos + 1, r.dpos + n)
